@@ -173,7 +173,10 @@ def bounded_render(tier, seed):
 
 
 BOUNDED = [bounded_render]
-META = {"rule": "obligations: one per contract clause/site of _make_float_literal; bounded part: one case per recorded assertion"}
+META = {"level": "other",
+        "explanation": "bounded contract check of the real observe -> render -> evaluate pipeline over a fixed value scope, plus "
+                       "discharged obligations for _make_float_literal (IEEE doubles); see bounded_parts for the scope",
+        "rule": "obligations: one per contract clause/site of _make_float_literal; bounded part: one case per recorded assertion"}
 
 
 def classify(g):
